@@ -159,7 +159,7 @@ def exact_arrays(kind, L, sites=None):
             a[1, 1, 0] = 1
             a[0, 1, 1] = 1
         if i == 0:
-            a = a[0:1]
+            a = a[0:1] + a[1:2] if kind == "ghz" else a[0:1]
         if i == L - 1:
             a = a[:, 0:1] + a[:, 1:2] if kind == "ghz" else a[:, 1:2]
         arrs.append(a)
@@ -241,7 +241,9 @@ def observe(psi, info, tol):
 
 
 def rec_of(info):
-    c = info.get("cur_orthog", None) if isinstance(info, dict) else None
+    if not isinstance(info, dict) or "cur_orthog" not in info:
+        return [-4, -4]          # no entry (canonicalize defaults it to "calc", the wrapped methods to None)
+    c = info["cur_orthog"]
     if c is None:
         return [-1, -1]
     if isinstance(c, str):
@@ -258,7 +260,7 @@ def rec_of(info):
 def rec_sound_py(ob):
     """used only to steer the random walk (reset the record after an unsound one), never as a verdict"""
     lo, hi = ob["rec"]
-    if lo in (-1, -2) and lo == hi:
+    if lo in (-1, -2, -4) and lo == hi:
         return True
     L = ob["L"]
     if not (0 <= lo <= hi <= L - 1):
@@ -316,8 +318,10 @@ def caller_record(ev, a, rec, L):
 
 
 def set_rec(info, rec):
-    if rec[0] == -1:
+    if rec[0] == -4:
         info.pop("cur_orthog", None)
+    elif rec[0] == -1:
+        info["cur_orthog"] = None
     elif rec[0] == -2:
         info["cur_orthog"] = "calc"
     else:
@@ -662,9 +666,14 @@ class Sess:
         G = (rand_unitary(self.rng, n, self.cplx) if op.get("unitary", True) else rand_op(self.rng, n, self.cplx)).astype(self.dtype)
         v = self.dense()
         kw = {"method": a["method"], "sweep_reverse": a["rev"], "cutoff": 0.0}
-        if a["method"] in ("fit",):
+        if a["method"] == "fit":
             kw.pop("cutoff")
-            kw.update(max_bond=64, tol=1e-13, max_iterations=60)
+            kw.update(max_bond=64)
+            if op.get("fit_its"):
+                kw.update(max_iterations=int(op["fit_its"]), tol=0.0)
+                a["fit_its"] = int(op["fit_its"])
+        elif a["method"] in ("src", "srcmps"):
+            kw.update(max_bond=64)
         try:
             if via == "gate_nonlocal":
                 new = self.psi.gate_nonlocal(G, where, info=self.info, inplace=a["inplace"], **kw)
@@ -675,7 +684,7 @@ class Sess:
                 new = self.psi.gate_with_submpo(mpo, where=where, info=self.info, inplace=a["inplace"], **kw)
         except Exception as ex:
             return self._fail("gate_with_submpo", a, ex)
-        exp = None if a["method"] == "fit" else apply_op_dense(v, dm, G, where)
+        exp = None if a["method"] in ("fit", "src", "srcmps") else apply_op_dense(v, dm, G, where)
         return self._finish("gate_with_submpo", a, v, exp, newpsi=None if a["inplace"] else new)
 
     def op_compress_site(self, op):
